@@ -430,8 +430,14 @@ func (vc *VC) copyCells(s Sort, dstRow, dstOff, srcRow, srcOff, n string, maxN i
 		return vc.def(rowSort(s), row, "row")
 	}
 	nr := vc.fresh(rowSort(s), "row")
-	vc.assume(fmt.Sprintf("(forall ((j!q (_ BitVec 64))) (! (= (select %s j!q) (ite (and (bvsle %s j!q) (bvslt j!q (bvadd %s %s))) (select %s (bvadd %s (bvsub j!q %s))) (select %s j!q))) :pattern ((select %s j!q))))",
-		nr, dstOff, dstOff, n, srcRow, srcOff, dstOff, dstRow, nr))
+	// definitional: nr[j] == (dstOff <= j < dstOff+n ? src[srcOff + (j - dstOff)] : dst[j]) for all j;
+	// recorded as an instantiable hypothesis (no quantifier is emitted)
+	gen := func(j string) string {
+		return eq(sel(nr, j), ite(and(app("bvsle", dstOff, j), app("bvslt", j, app("bvadd", dstOff, n))),
+			sel(srcRow, app("bvadd", srcOff, app("bvsub", j, dstOff))), sel(dstRow, j)))
+	}
+	vc.assume(fmt.Sprintf("(forall ((j!q (_ BitVec 64))) (! %s :pattern ((select %s j!q))))", gen("j!q"), nr))
+	vc.addHyp(gen)
 	return nr
 }
 
